@@ -553,3 +553,125 @@ def rule_LZ(ctx):
         else:
             r.ok(k)
     return r
+
+
+def rule_REP(ctx):
+    """'n*token' means the token written n times.  For a struct token that expands to several codes ('2*<hB') the GROUP is
+    repeated (h,B,h,B), as written-out '<hB,<hB' and the bracket form '2*(<hB)' give; repeating each code (h,h,B,B) pairs the
+    values with the wrong codes.  The way preprocess_tokens grows its result is classified: whole-list repetition or
+    element-wise repetition."""
+    m = ctx.m
+    r = RuleResult('REP', "a multiplier in front of a multi-code struct token repeats the whole group, in order")
+    f = m.funcs.get('utils:preprocess_tokens')
+    if f is None:
+        raise AnalysisError('anchor vanished: utils.preprocess_tokens')
+    # the list being built = the returned name
+    rets = [x.value.id for x in own_walk(f.node) if isinstance(x, ast.Return) and isinstance(x.value, ast.Name)]
+    if len(set(rets)) != 1:
+        raise AnalysisError('preprocess_tokens: returned list not recognised')
+    out = rets[0]
+    # the factor and the per-token list: `factor = int(m.group('factor'))`, `tokens = structparser(m) if ... else [..]`
+    factor = [x.targets[0].id for x in own_walk(f.node) if isinstance(x, ast.Assign) and isinstance(x.targets[0], ast.Name) and 'factor' in ast.unparse(x.value)
+              and 'group' in ast.unparse(x.value)]
+    group = [x.targets[0].id for x in own_walk(f.node) if isinstance(x, ast.Assign) and isinstance(x.targets[0], ast.Name) and 'structparser' in ast.unparse(x.value)]
+    if len(set(factor)) != 1 or len(set(group)) != 1:
+        raise AnalysisError('preprocess_tokens: factor / token-group variables not recognised')
+    fac, grp = factor[0], group[0]
+
+    def enclosing_fors(node):
+        return [l for l in own_walk(f.node) if isinstance(l, ast.For) and any(node is y for b in l.body for y in ast.walk(b))]
+
+    def classify(e, node):
+        """'group' | 'element' | 'plain' (no repetition here) | None"""
+        fors = enclosing_fors(node)
+        over_group = [l for l in fors if isinstance(l.iter, ast.Name) and l.iter.id == grp]
+        over_factor = [l for l in fors if isinstance(l.iter, ast.Call) and ast.unparse(l.iter.func) == 'range' and fac in ast.unparse(l.iter)]
+        txt = ast.unparse(e)
+        if isinstance(e, ast.BinOp) and isinstance(e.op, ast.Mult):
+            a, b = ast.unparse(e.left), ast.unparse(e.right)
+            if {a, b} == {grp, fac}:
+                return 'group'
+            other = e.left if b == fac else e.right if a == fac else None
+            if other is not None and isinstance(other, ast.List) and len(other.elts) == 1 and over_group and ast.unparse(other.elts[0]) == ast.unparse(over_group[0].target):
+                return 'element'
+        if txt == grp:
+            if over_factor and not over_group:
+                return 'group'
+            aug = [x for x in own_walk(f.node) if isinstance(x, ast.AugAssign) and isinstance(x.op, ast.Mult) and ast.unparse(x.target) == grp and ast.unparse(x.value) == fac]
+            if aug:
+                return 'group'
+            return 'plain'
+        if isinstance(e, ast.ListComp) and len(e.generators) == 2:
+            g0, g1 = e.generators
+            it0, it1 = ast.unparse(g0.iter), ast.unparse(g1.iter)
+            if it0 == grp and fac in it1:
+                return 'element'
+            if fac in it0 and it1 == grp:
+                return 'group'
+        return None
+    grows = []
+    for x in own_walk(f.node):
+        if isinstance(x, ast.Call) and isinstance(x.func, ast.Attribute) and ast.unparse(x.func.value) == out and x.func.attr in ('extend', 'append') and x.args:
+            grows.append((x, x.args[0]))
+        if isinstance(x, ast.AugAssign) and ast.unparse(x.target) == out and isinstance(x.op, ast.Add):
+            grows.append((x, x.value))
+    if not grows:
+        raise AnalysisError('preprocess_tokens: no statement growing the result found')
+    for node, e in grows:
+        k = classify(e, node)
+        if k == 'group':
+            r.ok(f'{f.key}:{norm(node)}', {'instance': f.key, 'grows_by': norm(e), 'verdict': 'whole group repeated'})
+        elif k == 'element':
+            r.fail(f.key, node, f"the result grows by {norm(e)} for each code of the group: '2*<hB' becomes h,h,B,B, but the multiplier repeats the token as "
+                   "written (h,B,h,B - what '<hB,<hB' and '2*(<hB)' give), so packed values meet the wrong codes", loc=f.loc(node))
+        else:
+            raise AnalysisError(f'preprocess_tokens: cannot classify how the result grows ({norm(node)}) (needs a human)')
+    return r
+
+
+def rule_STALE(ctx):
+    """A "bits remaining" quantity (len(self) - pos ...) is only right for the position it was computed from.  Computed once
+    before a loop that advances that position and used inside the loop, it ignores everything the loop has consumed so far
+    (e.g. a variable-length token in front of a length-less one)."""
+    m = ctx.m
+    r = RuleResult('STALE', 'remaining-bits quantities are computed from the current position, not from the position before the loop')
+    n = 0
+    for f in m.funcs.values():
+        if f.mod == '__main__':
+            continue
+        loops = [l for l in own_walk(f.node) if isinstance(l, (ast.For, ast.While))]
+        for l in loops:
+            carried = set()
+            for b in l.body:
+                for y in ast.walk(b):
+                    if isinstance(y, (ast.Assign, ast.AugAssign)):
+                        for t in (y.targets if isinstance(y, ast.Assign) else [y.target]):
+                            for z in ast.walk(t):
+                                if isinstance(z, ast.Name) and isinstance(z.ctx, ast.Store):
+                                    carried.add(z.id)
+            carried &= {'pos', 'p', 'position', 'bitpos', 'start', 'offset'} | {v for v in carried if 'pos' in v}
+            if not carried:
+                continue
+            n += 1
+            bad = None
+            for x in own_walk(f.node):
+                if isinstance(x, ast.Assign) and x.lineno < l.lineno and not any(x is y for b in l.body for y in ast.walk(b)) and \
+                        len(x.targets) == 1 and isinstance(x.targets[0], ast.Name):
+                    w = x.targets[0].id
+                    if w in carried:
+                        continue
+                    for v in carried:
+                        rem = any(isinstance(y, ast.BinOp) and isinstance(y.op, ast.Sub) and 'len(self)' in ast.unparse(y.left) and
+                                  any(isinstance(z, ast.Name) and z.id == v for z in ast.walk(y.right)) for y in ast.walk(x.value))
+                        if rem and any(isinstance(y, ast.Name) and y.id == w and isinstance(y.ctx, ast.Load) for b in l.body for y in ast.walk(b)) \
+                                and not any(isinstance(y, ast.Assign) and any(isinstance(t, ast.Name) and t.id == w for t in y.targets) for b in l.body for y in ast.walk(b)):
+                            bad = (x, w, v)
+            if bad:
+                x, w, v = bad
+                r.fail(f.key, x, f"'{w}' is computed from len(self) - {v} before the loop at line {l.lineno}, which advances '{v}', and is used inside it: bits the "
+                       'loop has already consumed (e.g. by a variable-length token) are not subtracted', loc=f.loc(x))
+            else:
+                r.ok(f'{f.key}:loop@{norm(l.target) if isinstance(l, ast.For) else "while"}')
+    if n < 3:
+        raise AnalysisError(f'only {n} loops advancing a position found (floor 3)')
+    return r
